@@ -28,3 +28,52 @@ package mp4
 //@ pred boxOK@TrefBox(b *TrefBox) = kidsOK(b.Children)
 //@ pred boxOK@UdtaBox(b *UdtaBox) = kidsOK(b.Children)
 //@ pred boxOK@VttcBox(b *VttcBox) = kidsOK(b.Children)
+
+// ---- init segments, fragments, files: Size() is the sum of the children's sizes
+//@ func (*InitSegment).Size
+//@   ensures result == sizeSum(s.Children, len(s.Children))
+//@   assigns nothing
+//@   loop 1 invariant size == sizeSum(s.Children, idx(1))
+//@ func (*Fragment).Size
+//@   ensures result == sizeSum(f.Children, len(f.Children))
+//@   assigns nothing
+//@   loop 1 invariant size == sizeSum(f.Children, idx(1))
+//@ func (*File).Size
+//@   ensures result == sizeSum(f.Children, len(f.Children))
+//@   assigns nothing
+//@   loop 1 invariant idx(1) <= len(p0.Children)
+//@   loop 1 invariant totSize == sizeSum(p0.Children, idx(1))
+
+//@ func (*InitSegment).EncodeSW
+//@   requires kidsOK(s.Children)
+//@   ensures[C02] result == nil ==> adv(sw, int(s.Size()))
+//@   loop 1 invariant adv(sw, int(sizeSum(s.Children, idx(1))))
+//@ func (*InitSegment).Encode
+//@   requires kidsOK(s.Children)
+//@   ensures[C02] result == nil ==> ghost(w).wlen == old(ghost(w).wlen) + int(s.Size())
+//@   loop 1 invariant ghost(w).wlen == old(ghost(w).wlen) + int(sizeSum(s.Children, idx(1)))
+
+// Fragment: Size() as reported after the call (trun optimisation and data offsets are applied first)
+//@ func (*Fragment).EncodeSW
+//@   ensures[C02] result == nil && kidsOK(f.Children) ==> adv(sw, int(f.Size()))
+//@   trustkind pre:schema:boxEncodeSW
+//@   loop 1 invariant adv(sw, int(sizeSum(f.Children, idx(1))))
+//@ func (*Fragment).Encode
+//@   ensures[C02] result == nil && kidsOK(f.Children) ==> ghost(w).wlen == old(ghost(w).wlen) + int(f.Size())
+//@   trustkind pre:schema:boxEncode
+//@   loop 1 invariant ghost(w).wlen == old(ghost(w).wlen) + int(sizeSum(f.Children, idx(1)))
+
+// File: progressive and box-tree mode (segment mode goes through media segments, whose sizes are sums over fragments that are
+// modified while being encoded: not expressible with one heap epoch, not claimed)
+//@ pred sidxsOK(xs []*SidxBox) = forall i int :: 0 <= i && i < len(xs) ==> boxOK(xs[i])
+//@ pred fileOK(f *File) = kidsOK(f.Children) && (f.Init != nil ==> kidsOK(f.Init.Children)) && (f.Mfra != nil ==> boxOK(f.Mfra)) && sidxsOK(f.Sidxs)
+//@ func (*File).EncodeSW
+//@   requires fileOK(f)
+//@   ensures[C02] result == nil && !(f.isFragmented && f.FragEncMode == EncModeSegment) ==> adv(sw, int(f.Size()))
+//@   loop 3 invariant adv(sw, int(sizeSum(f.Children, idx(3))))
+//@   loop 4 invariant adv(sw, int(sizeSum(f.Children, idx(4))))
+//@ func (*File).Encode
+//@   requires fileOK(f)
+//@   ensures[C02] result == nil && !(f.isFragmented && f.FragEncMode == EncModeSegment) ==> ghost(w).wlen == old(ghost(w).wlen) + int(f.Size())
+//@   loop 3 invariant ghost(w).wlen == old(ghost(w).wlen) + int(sizeSum(f.Children, idx(3)))
+//@   loop 4 invariant ghost(w).wlen == old(ghost(w).wlen) + int(sizeSum(f.Children, idx(4)))
